@@ -424,4 +424,32 @@ theorem startsWith_self_append (p xs : Bytes) : startsWith (p ++ xs) p = true :=
   | nil => cases xs <;> simp [startsWith]
   | cons q p ih => simp [startsWith, ih]
 
+/-! ### URL schemes -/
+
+theorem schemeTail_mem (xs : Bytes) (h : schemeTail xs = true) : 58 ∈ xs := by
+  induction xs with
+  | nil => simp [schemeTail] at h
+  | cons x xs ih =>
+    unfold schemeTail at h
+    split at h
+    · subst_vars; simp
+    · split at h
+      · exact List.mem_cons_of_mem _ (ih h)
+      · simp at h
+
+theorem hasScheme_mem (xs : Bytes) (h : hasScheme xs = true) : 58 ∈ xs := by
+  unfold hasScheme at h
+  split at h
+  · simp at h
+  · rename_i b rest heq
+    simp only [Bool.and_eq_true] at h
+    have hm : 58 ∈ b :: rest := List.mem_cons_of_mem _ (schemeTail_mem rest h.2)
+    rw [← heq] at hm
+    exact (List.dropWhile_sublist _).subset hm
+
+theorem hasScheme_false_of_no_colon (xs : Bytes) (h : 58 ∉ xs) : hasScheme xs = false := by
+  cases hh : hasScheme xs with
+  | false => rfl
+  | true => exact absurd (hasScheme_mem xs hh) h
+
 end Grcov.Escape
